@@ -22,7 +22,7 @@ ASSUMPTIONS = [
     "sending after the *client's* disconnect is not judged (the statement's automaton is about the application side)",
 ]
 
-CALLS = ["accept", "accept_sub", "receive", "receive_text", "receive_bytes", "iter_text", "iter_bytes", "send_text",
+CALLS = ["raw_denial", "accept", "accept_sub", "receive", "receive_text", "receive_bytes", "iter_text", "iter_bytes", "send_text",
          "send_bytes", "close", "close_code", "raw_accept", "raw_send", "raw_close", "raw_bogus"]
 ORDER = {"CONNECTING": 0, "CONNECTED": 1, "DISCONNECTED": 2}
 
@@ -156,6 +156,8 @@ def run_scenario(ctx, calls, script_tag, events, overlap=None, send_fail=None):
             coro = ws.send({"type": "websocket.close", "code": 1001})
         elif call == "raw_bogus":
             coro = ws.send({"type": "websocket.bogus"})
+        elif call == "raw_denial":
+            coro = ws.send({"type": "websocket.http.response.start", "status": 403, "headers": []})  # not an event of the wrapper's vocabulary in any state
         return coro
 
     def step_partial(coro):
@@ -229,9 +231,9 @@ def run_scenario(ctx, calls, script_tag, events, overlap=None, send_fail=None):
         if kind == "exc" and send_fail is not None and injected(val):
             ctx.count("server-send-failure-passed-through")
         # ------------------------------------------------ sends
-        if call in ("send_text", "send_bytes", "raw_accept", "raw_send", "raw_close", "raw_bogus", "close", "close_code",
+        if call in ("send_text", "send_bytes", "raw_accept", "raw_send", "raw_close", "raw_bogus", "raw_denial", "close", "close_code",
                     "accept", "accept_sub"):
-            mtype = {"send_text": "send", "send_bytes": "send", "raw_accept": "accept", "raw_send": "send",
+            mtype = {"send_text": "send", "send_bytes": "send", "raw_accept": "accept", "raw_send": "send", "raw_denial": "denial",
                      "raw_close": "close", "raw_bogus": "bogus", "close": "close", "close_code": "close",
                      "accept": "accept", "accept_sub": "accept"}[call]
             if call in ("accept", "accept_sub") and c == "CONNECTING":
@@ -668,8 +670,24 @@ def denial(ctx, rng):
             ctx.case(("denial", ext, kind))
 
 
+def prelude():
+    """before anything else this process serves a few connections whose scope advertises the denial-response extension
+    (what one connection's scope says must not change how later connections are treated)"""
+    from baize.asgi import WebSocket
+    for k in range(3):
+        async def receive():
+            return {"type": "websocket.connect"}
+
+        async def send(m):
+            pass
+        ws = WebSocket({"type": "websocket", "headers": [], "path": "/", "query_string": b"", "extensions": {"websocket.http.response": {}},
+                        "subprotocols": ["a"]}, receive, send)
+        step(ws.accept() if k else ws.close())
+
+
 def run(ctx):
     rng = ctx.rng("c11")
+    prelude()
     full = 4 if ctx.quick else 5
     idx = 0
     for n in range(1, full + 1):
